@@ -14,7 +14,7 @@ import (
 // plainTxnCfg: committed transactions only (C01 is about committed values).
 func c01TxnCfg() TxnCfg {
 	return TxnCfg{Prop: "C01", MaxSteps: 12, Deletes: true, Inserts: true, Merges: true, OwnUpdates: true, Direct: true,
-		NoStoreOnDel: KFActive("f11-store-and-delete-same-txn")}
+		NoStoreOnDel: KFActive("f11-store-and-delete-same-txn"), NoOpAfterLenMerge: KFActive("f15-difflen-merge-reorder")}
 }
 
 func genPrefillSize(t *rapid.T, allowBig bool) int {
@@ -54,7 +54,7 @@ func (mc *Machine) prefillAction(t *rapid.T) {
 
 func TestC01(t *testing.T) {
 	rapid.Check(t, func(t *rapid.T) {
-		sch := genSchema(t, SchemaCfg{Key: 1, Late: true, Merges: true, NoLenMerge: KFActive("f15-difflen-merge-reorder")})
+		sch := genSchema(t, SchemaCfg{Key: 1, Late: true, Merges: true})
 		mc := NewMachine("C01", sch, column.Options{})
 		defer mc.Close()
 		defer mc.Guard(t)
